@@ -493,6 +493,40 @@ func runC14(c *Ctx) error {
 			}
 		}
 	}
+	// 2c. the same at every version-gated boundary (the per-type limit and the element size of addr depend
+	// on the protocol version): payload level for the small list kinds, framed for addr - a limit table that
+	// is too small makes WriteMessage refuse / ReadMessage reject a well-formed message
+	boundary := []uint32{wire.MultipleAddressVersion, wire.NetAddressTimeVersion - 1, wire.NetAddressTimeVersion,
+		wire.NetAddressTimeVersion + 1, wire.BIP0031Version, wire.BIP0031Version + 1, wire.BIP0035Version,
+		wire.BIP0037Version, wire.RejectVersion, wire.SendHeadersVersion}
+	for _, pv := range boundary {
+		for _, kind := range []string{"addr", "getblocks", "getheaders", "headers"} {
+			for _, d := range []int{-1, 0, 1} {
+				if kind == "headers" && d != 0 {
+					continue
+				}
+				g.forceCount = limits[kind] + d
+				m := g.msg(kind, pv, false, false)
+				g.forceCount = -1
+				if err := run(fmt.Sprintf("P %d %d %s", pv, prod, c14Summarize(m))); err != nil {
+					return err
+				}
+			}
+		}
+		// addr: 1000 addresses, and the counts around (1000*26+9)/30 that only fit when the limit counts the timestamp
+		counts := []int{wire.MaxAddrPerMsg}
+		if pv == wire.NetAddressTimeVersion || c.Thorough() {
+			counts = append(counts, 866, 867)
+		}
+		for _, n := range counts {
+			g.forceCount = n
+			m := g.msg("addr", pv, false, false)
+			g.forceCount = -1
+			if err := run(fmt.Sprintf("F %d %d %d %s", pv, prod, uint32(wire.MainNet), c14Summarize(m))); err != nil {
+				return err
+			}
+		}
+	}
 	// 3. framed round trips (the model hashes: keep most payloads small)
 	nF := c.Pick(100, 1200)
 	for _, kind := range c14Modelled {
